@@ -247,14 +247,18 @@ theorem small_branch_pos (W p : Nat) (c : Sci) (hc : SciOK W c 0) (hp : 1 ≤ p)
     · exact Or.inl h
     · exact Or.inr ⟨h, by rw [h]; exact fixed_rat_err false true p x hd hneg⟩
 
-/-- **Small-magnitude mixed branch, negative chain** (`value > -0.01`).  [partial: under `hN`,
-`|x| > ½·10^-p` — the values that do not round to zero at the branch's precision; for the one
-double between the literal `5e-7` / `5e-15` and its nearest double below (`|x| ≤ ½·10^-p`), the code
-relies on `float(field1) == float("-0.")` being false, which is tied by the correspondence only.] -/
-theorem small_branch_neg_partial (W p : Nat) (c : Sci) (hc : SciOK W c 0) (hp : 1 ≤ p) (x : Dbl)
+/-- **Small-magnitude mixed branch, negative chain** (`value > -0.01`: scientific field, or
+`-.000ddd` when that is as wide at most and reads back as the same double).  For every negative
+fraction in range with `|x| ≥ 10^-(p+1)` (`p`, `p+1` not multiples of ten: `tables_format_ok`) the
+branch returns exactly `W` characters, a well-formed field read back as the real nearest to its
+decimal.  When `x` rounds to zero at precision `p` (`|x| ≤ ½·10^-p`: the double just below the
+literal `5e-7` / `5e-15`) the comparison `float(field1) == float("-0.")` is false — the scientific
+field does not read as zero (`toBits_nonzero`) — and the scientific field is returned. -/
+theorem small_branch_neg (W p : Nat) (c : Sci) (hc : SciOK W c 0) (hp : 1 ≤ p) (hp2 : p + 1 ≤ 250)
+    (hpd : p % 10 ≠ 0 ∧ (p + 1) % 10 ≠ 0) (x : Dbl)
     (hneg : x.neg = true) (hn : 0 < x.num) (hd : 0 < x.den)
     (hlo : x.den ≤ 10 ^ 999 * x.num) (hhi : x.num < 10 ^ 999 * x.den)
-    (hN : x.den < 2 * (x.num * 10 ^ p))
+    (hlow : x.den ≤ 10 ^ (p + 1) * x.num)
     (h8 : W = 8 → x.den ≤ 10 ^ 9 * x.num ∧ x.num * 10 ^ 1 < x.den) (k : Bool) :
     (smallNeg W p c x).length = W ∧
     ∃ f : Fld, f.wf = true ∧ smallNeg W p c x = rjust W f.text ∧
@@ -262,7 +266,7 @@ theorem small_branch_neg_partial (W p : Nat) (c : Sci) (hc : SciOK W c 0) (hp : 
       (sciCore W c [] x = rjust W f.text ∨
         (f = fixedFld true true p (rheDiv (x.num * 10 ^ p) x.den) ∧
           |decRat f.dec - dblRat x| ≤ 1 / 2 * (10 : ℚ) ^ (-(p : Int)))) := by
-  obtain ⟨f, hwf, hlen, hshape, hcase⟩ := smallNeg_good_partial W p c hc hp x hneg hn hd hlo hhi hN h8
+  obtain ⟨f, hwf, hlen, hshape, hcase⟩ := smallNeg_good W p c hc hp hp2 hpd x hneg hn hd hlo hhi hlow h8
   refine ⟨by rw [hshape]; exact rjust_length_of_le _ _ hlen, f, hwf, hshape, ?_, ?_⟩
   · rw [hshape, rjust]; exact nasSscanf_field f hwf _ k
   · rcases hcase with h | h
@@ -320,7 +324,7 @@ theorem last_branches (W : Nat) (c : Sci) (hW : 3 ≤ W) (x : Dbl) (hd : 0 < x.d
 negative one (precision 6), `x = 1234567.4` and `x = -123456.4` in the final branches. -/
 example : (∃ x : Dbl, x.neg = false ∧ 0 < x.num ∧ 0 < x.den ∧ x.den ≤ 10 ^ 999 * x.num ∧
       x.num < 10 ^ 999 * x.den ∧ x.den ≤ 10 ^ 9 * x.num ∧ x.num * 10 ^ 1 < x.den) ∧
-    (∃ x : Dbl, x.neg = true ∧ 0 < x.num ∧ x.den < 2 * (x.num * 10 ^ 6) ∧ x.num * 10 ^ 1 < x.den) ∧
+    (∃ x : Dbl, x.neg = true ∧ 0 < x.num ∧ x.den ≤ 10 ^ (6 + 1) * x.num ∧ x.num * 10 ^ 1 < x.den) ∧
     (∃ x : Dbl, x.neg = false ∧ 0 < x.den ∧ 2 * x.num < (2 * 10 ^ (8 - 1) - 1) * x.den) ∧
     (∃ x : Dbl, x.neg = true ∧ 0 < x.den ∧ 2 * x.num < (2 * 10 ^ (8 - 2) - 1) * x.den) :=
   ⟨⟨⟨false, 5, 10000⟩, rfl, by decide, by decide, by decide +kernel, by decide +kernel, by decide,
@@ -342,50 +346,39 @@ theorem tables_format_ok :
 
 /-- **`format_float8` and `format_float16` as a whole** (the if-chains interpreted from the
 generated tables, every branch): for every fraction `x` that is zero or has
-`10^-999 ≤ |x| < 10^999` the result has exactly 8 / 16 characters, is a well-formed field of the
-emitted grammar and is read back by `nas_sscanf` as the real nearest to its decimal.
-[partial: `hsl` — for negative `x` in the mixed branch (`sliverPairs`: at or above the double of
-the literal `5e-7` / `5e-15`) `x` does not round to zero at the branch's precision, i.e.
-`|x| > ½·10^-6` / `½·10^-14`; this excludes one double per width, see `small_branch_neg_partial`.
-The accuracy of each branch is in `fixed_branch_accuracy`, `sci_width_accuracy`,
-`small_branch_pos`, `last_branches`.] -/
-theorem format_float_total_partial (x : Dbl) (hd : 0 < x.den)
+`10^-999 ≤ |x| < 10^999` — in particular every finite double — the result has exactly 8 / 16
+characters, is a well-formed field of the emitted grammar and is read back by `nas_sscanf` as the
+real nearest to its decimal.  (The accuracy of each branch is in `fixed_branch_accuracy`,
+`sci_width_accuracy`, `small_branch_pos`, `small_branch_neg`, `last_branches`.) -/
+theorem format_float_total (x : Dbl) (hd : 0 < x.den)
     (hr : x.num = 0 ∨ (x.den ≤ 10 ^ 999 * x.num ∧ x.num < 10 ^ 999 * x.den)) (k : Bool) :
-    ((x.neg = true → ∀ lp ∈ sliverPairs none neg8, mge x lp.1 → x.den < 2 * (x.num * 10 ^ lp.2)) →
-      (formatFloat8 x).length = 8 ∧ ∃ f : Fld, f.wf = true ∧ formatFloat8 x = rjust 8 f.text ∧
+    ((formatFloat8 x).length = 8 ∧ ∃ f : Fld, f.wf = true ∧ formatFloat8 x = rjust 8 f.text ∧
         nasSscanf (formatFloat8 x) k = .flt (toBits f.dec.1 f.dec.2.1 f.dec.2.2)) ∧
-    ((x.neg = true → ∀ lp ∈ sliverPairs none neg16, mge x lp.1 → x.den < 2 * (x.num * 10 ^ lp.2)) →
-      (formatFloat16 x).length = 16 ∧ ∃ f : Fld, f.wf = true ∧ formatFloat16 x = rjust 16 f.text ∧
+    ((formatFloat16 x).length = 16 ∧ ∃ f : Fld, f.wf = true ∧ formatFloat16 x = rjust 16 f.text ∧
         nasSscanf (formatFloat16 x) k = .flt (toBits f.dec.1 f.dec.2.1 f.dec.2.2)) := by
   obtain ⟨h8, h16⟩ := tables_format_ok
   obtain ⟨s8, s16, _⟩ := sci_consts_ok
   constructor
-  · intro hsl
-    have hg := formatFloat_good 8 sci8 pos8 neg8 posLast8 negLast8 s8 (by norm_num) h8 x hd hr hsl
+  · have hg := formatFloat_good 8 sci8 pos8 neg8 posLast8 negLast8 s8 (by norm_num) h8 x hd hr
     have e : formatFloat8 x = (if geZero x then chain 8 sci8 false (lastPos 8 sci8 posLast8) pos8 x
         else chain 8 sci8 true (lastNeg 8 sci8 negLast8) neg8 x) := rfl
     rw [← e] at hg
     exact ⟨hg.length, hg.scan k⟩
-  · intro hsl
-    have hg := formatFloat_good 16 sci16 pos16 neg16 posLast16 negLast16 s16 (by norm_num) h16 x hd hr hsl
+  · have hg := formatFloat_good 16 sci16 pos16 neg16 posLast16 negLast16 s16 (by norm_num) h16 x hd hr
     have e : formatFloat16 x = (if geZero x then chain 16 sci16 false (lastPos 16 sci16 posLast16) pos16 x
         else chain 16 sci16 true (lastNeg 16 sci16 negLast16) neg16 x) := rfl
     rw [← e] at hg
     exact ⟨hg.length, hg.scan k⟩
 
-/-- non-vacuity: the excluded sliver is one literal per width (the double of `5e-7`, precision 6;
-the double of `5e-15`, precision 14); every positive `x` and `x = -1.5` satisfy `hsl`. -/
-example : sliverPairs none neg8 = [(litDbl 1 2000000, 6)] ∧
-    sliverPairs none neg16 = [(litDbl 1 200000000000000, 14)] ∧
-    (∀ lp ∈ sliverPairs none neg8, mge ⟨true, 3, 2⟩ lp.1 →
-      (⟨true, 3, 2⟩ : Dbl).den < 2 * ((⟨true, 3, 2⟩ : Dbl).num * 10 ^ lp.2)) := by
-  refine ⟨by decide, by decide, ?_⟩
-  intro lp hlp _
-  have : sliverPairs none neg8 = [(litDbl 1 2000000, 6)] := by decide
-  rw [this] at hlp
-  simp at hlp
-  subst hlp
-  decide
+/-- non-vacuity: zero, `x = -4.99999999999999977e-07` (the double just below the literal `5e-7`,
+which rounds to zero at the negative mixed branch's precision) and `x = 9999999.4999` satisfy the
+hypotheses. -/
+example : (∃ x : Dbl, 0 < x.den ∧ x.num = 0) ∧
+    (∃ x : Dbl, x.neg = true ∧ 0 < x.den ∧ x.den ≤ 10 ^ 999 * x.num ∧ x.num < 10 ^ 999 * x.den ∧
+      2 * (x.num * 10 ^ 6) ≤ x.den ∧ mge x (litDbl 1 2000000)) :=
+  ⟨⟨⟨false, 0, 1⟩, by decide, rfl⟩,
+   ⟨⟨true, (litDbl 1 2000000).num, (litDbl 1 2000000).den⟩, rfl, by decide +kernel, by decide +kernel,
+     by decide +kernel, by decide +kernel, by decide +kernel⟩⟩
 
 /-- Below the carry guard `M − ½` (`M = 10^(W-2)`) the integer written by the final negative
 branch, `int(round(x, 0))`, stays below `M`: it has at most `W − 2` digits, so `-ddddddd.` fits. -/
